@@ -61,7 +61,24 @@ def make_env(case, env_cls=None, names=None, syn=None, **opts):
     return env, srcs
 
 
-def real_render(case, di, env=None, names=None, how="render"):
+class _AIter:
+    """A re-iterable async iterable producing the items of a list."""
+
+    def __init__(self, items):
+        self.items = items
+
+    def __aiter__(self):
+        async def gen():
+            for x in self.items:
+                yield x
+        return gen()
+
+
+def _agen(items):
+    return _AIter(items)
+
+
+def real_render(case, di, env=None, names=None, how="render", async_fns=False, async_iters=False):
     """Render case's main template on data assignment #di (1-based) with real jinja2.
     Returns {"out": text or None, "err": class or "", "log": [...]}."""
     import asyncio
@@ -71,7 +88,9 @@ def real_render(case, di, env=None, names=None, how="render"):
     log = []
     cache = {}
     R = lambda n: (names or {}).get(n, n)
-    data = {R(k): jast.to_py(v, case["objs"], log, cache) for k, v in case["datas"][di - 1].items()}
+    data = {R(k): jast.to_py(v, case["objs"], log, cache, async_fns) for k, v in case["datas"][di - 1].items()}
+    if async_iters:
+        data = {k: (_agen(v) if k.startswith("ag") and isinstance(v, list) else v) for k, v in data.items()}
     try:
         t = env.get_template(case["main"])
         if how == "render":
@@ -143,7 +162,8 @@ def _work(args):
             if obs["err"] == "EXCLUDED":
                 excluded += 1
                 continue
-            real = real_render(case, di, env=env, names=v.get("names"), how=v.get("how", "render"))
+            real = real_render(case, di, env=env, names=v.get("names"), how=v.get("how", "render"),
+                               async_fns=v.get("async_fns", False), async_iters=v.get("async_iters", False))
             n += 1
             if real["err"] in ("TemplateSyntaxError", "TemplateAssertionError") and obs["err"] != real["err"]:
                 mism.append({"case": case["id"], "d": di, "variant": v["label"], "machinery": False,
